@@ -330,6 +330,21 @@ def _parenthesize_nested_connector(expression: exp.Expr, parent: exp.Expr | None
     return expression
 
 
+def _parenthesize_for_parent(expression: exp.Expr, parent: exp.Expr | None) -> exp.Expr:
+    """
+    An argument that replaces the CASE / IF / COALESCE it was in may bind looser than its new parent:
+    keep the grouping explicit (simplify_parens drops the parentheses again where they are not needed).
+    """
+    if (
+        isinstance(parent, (exp.Binary, exp.Unary, exp.Predicate))
+        and isinstance(expression, (exp.Binary, exp.Unary, exp.Predicate))
+        and not isinstance(expression, exp.Paren)
+    ):
+        return exp.paren(expression, copy=False)
+
+    return expression
+
+
 def always_true(expression: object) -> bool:
     return (isinstance(expression, exp.Boolean) and expression.this) or (
         isinstance(expression, exp.Literal) and expression.is_number and not is_zero(expression)
@@ -1335,7 +1350,7 @@ class Simplifier:
             # COALESCE is also used as a Spark partitioning hint
             and not isinstance(expression.parent, exp.Hint)
         ):
-            return expression.this
+            return _parenthesize_for_parent(expression.this, expression.parent)
 
         if self.dialect.COALESCE_COMPARISON_NON_STANDARD:
             return expression
@@ -1451,18 +1466,22 @@ class Simplifier:
                 if always_true(cond):
                     # only the first remaining branch is guaranteed to fire
                     if case is expression.args["ifs"][0]:
-                        return case.args["true"]
+                        return _parenthesize_for_parent(case.args["true"], expression.parent)
                     break
 
                 if always_false(cond):
                     case.pop()
                     if not expression.args["ifs"]:
-                        return expression.args.get("default") or exp.null()
+                        return _parenthesize_for_parent(
+                            expression.args.get("default") or exp.null(), expression.parent
+                        )
         elif isinstance(expression, exp.If) and not isinstance(expression.parent, exp.Case):
             if always_true(expression.this):
-                return expression.args["true"]
+                return _parenthesize_for_parent(expression.args["true"], expression.parent)
             if always_false(expression.this):
-                return expression.args.get("false") or exp.null()
+                return _parenthesize_for_parent(
+                    expression.args.get("false") or exp.null(), expression.parent
+                )
 
         return expression
 
